@@ -340,12 +340,7 @@ type goTask struct {
 
 // goTasks lists the literal Job.Data assignments of TaskPrepare with their command id.
 func (c *Ctx) goTasks(fn *ssa.Function) []goTask {
-	var cmdParam *ssa.Parameter
-	for _, p := range fn.Params {
-		if p.Name() == "Command" {
-			cmdParam = p
-		}
-	}
+	cmdParam := switchedParam(fn)
 	var out []goTask
 	for _, b := range fn.Blocks {
 		for _, in := range b.Instrs {
